@@ -60,8 +60,17 @@ def run_case(case, g, tier, res):
             mol.mixture._system_mass = S
             mol.mixture._absolute_mass = f / 100.0 * S
         called = []
+
+        def stub(i):
+            def gen(prefix=None, rng=None):
+                if len(called) >= 6:
+                    raise core.emulated(RuntimeError("unwinding bound: one molecule is asked for, more than 6 were generated"))
+                called.append(i)
+                return FakeMolGen(i, 0, mbar[i], True)
+            return gen
+
         for i, mol in enumerate(system._molecules):
-            mol.generate = (lambda i: (lambda prefix=None, rng=None: (called.append(i), FakeMolGen(i, 0, mbar[i], True))[1]))(i)
+            mol.generate = stub(i)
         captured = []
 
         def on_choice(rec, c):
@@ -131,7 +140,7 @@ def run_case(case, g, tier, res):
             c.prove(p[i] * mbar[i] * sumf == fr[i] * denom, "mass share equals declared fraction", build)
         return "ok"
 
-    explore_case(res, h, tier, on_path=on_path)
+    explore_case(res, h, tier, on_path=on_path, budget_s=600)
 
 
 # ---------------------------------------------------------------------------
